@@ -50,6 +50,7 @@ type srvSpec struct {
 	// the allocator option VALUE to use (instead of calling the constructor): one option list used for several servers
 	rsOpt   RequestServerOption
 	osOpt   ServerOption
+	putOnly bool   // request server: the handlers do not implement OpenFileWriter (read+write handles are served by fileput)
 	maxTx   uint32 // maximum payload option (0 = not given)
 	txFirst bool   // give the maximum payload option before the allocator option (options are applied in order)
 	dirs    []string
@@ -113,6 +114,7 @@ func (s *srvSpec) start() *srvRun {
 	switch s.server {
 	case "rs":
 		r.h = newVHandler(s.split)
+		r.h.PutOnly = s.putOnly
 		for n, c := range s.files {
 			f := r.h.file(n, true)
 			f.data = []byte(c)
